@@ -67,6 +67,23 @@ Section Assoc.
     - apply IH. tauto.
   Qed.
 
+  Lemma lookup_filter_some k v (f : str * V -> bool) m :
+    lookup k m = Some v -> f (k, v) = true -> lookup k (filter f m) = Some v.
+  Proof.
+    induction m as [|[k0 v0] m IH]; intros L F; [discriminate|]. rewrite lookup_cons in L. cbn [filter].
+    destruct (str_eqb k0 k) eqn:E.
+    - injection L as ->. apply str_eqb_spec in E. subst k0. rewrite F, lookup_cons, str_eqb_refl. reflexivity.
+    - destruct (f (k0, v0)); [rewrite lookup_cons, E|]; auto.
+  Qed.
+
+  Lemma lookup_filter_none k (f : str * V -> bool) m :
+    lookup k m = None -> lookup k (filter f m) = None.
+  Proof.
+    induction m as [|[k0 v0] m IH]; intros L; [reflexivity|]. rewrite lookup_cons in L. cbn [filter].
+    destruct (str_eqb k0 k) eqn:E; [discriminate|].
+    destruct (f (k0, v0)); [rewrite lookup_cons, E|]; auto.
+  Qed.
+
   Lemma lookup_insert_eq k v m : lookup k (insert k v m) = Some v.
   Proof. unfold insert. now rewrite lookup_cons, str_eqb_refl. Qed.
 
@@ -243,6 +260,10 @@ Section Refine.
   (* ---- invariant of reachable registry states ---- *)
   Notation sinv := (sinv H parse_mt subject_of limit p).
   Notation inv := (inv H parse_mt subject_of limit p).
+  Notation minv := (minv H parse_mt limit).
+
+  Lemma inv_minv g : inv g -> minv g.
+  Proof. intros [I _] d mt c L. destruct (I _ _ _ L) as (A & _ & B & C). auto. Qed.
 
   Lemma man_lookup_store g rf :
     man_lookup (store_of g) rf =
@@ -287,12 +308,12 @@ Section Refine.
   Qed.
 
   (* ---- manifestStore.Fetch ---- *)
-  Lemma man_fetch_hit g n d c :
-    inv g -> lookup (d_dg d) (g_mans g) = Some (d_mt d, c) -> len c = d_sz d ->
+  Lemma man_fetch_hit_m g n d c :
+    minv g -> lookup (d_dg d) (g_mans g) = Some (d_mt d, c) -> len c = d_sz d ->
     valid_digest (d_dg d) = true ->
     exists t, man_fetch parse_mt main S ex0 (g, n) d = ((g, n + 1), t, RBytes c).
   Proof.
-    intros [I _] L Hs V. destruct (I _ _ _ L) as (_ & _ & Pm & Hlim).
+    intros I L Hs V. destruct (I _ _ _ L) as (_ & Pm & Hlim).
     unfold man_fetch. rewrite hx_get_man.
     rewrite (man_resp_hit false g (d_dg d) (d_dg d) (d_mt d) c)
       by (rewrite man_lookup_digest, L; auto).
@@ -300,6 +321,12 @@ Section Refine.
     eexists. f_equal. rewrite vd_opt by exact V.
     destruct (p_clen p); cbn [orb opt_if]; proj; rewrite <- ?Hs, ?len_eqb_refl; reflexivity.
   Qed.
+
+  Lemma man_fetch_hit g n d c :
+    inv g -> lookup (d_dg d) (g_mans g) = Some (d_mt d, c) -> len c = d_sz d ->
+    valid_digest (d_dg d) = true ->
+    exists t, man_fetch parse_mt main S ex0 (g, n) d = ((g, n + 1), t, RBytes c).
+  Proof. intro Hi. apply man_fetch_hit_m. now apply inv_minv. Qed.
 
   Lemma man_fetch_miss g n d :
     lookup (d_dg d) (g_mans g) = None -> valid_digest (d_dg d) = true ->
@@ -311,15 +338,15 @@ Section Refine.
   Qed.
 
   (* ---- manifestStore.Resolve ---- *)
-  Lemma man_resolve_hit g n rs rf d mt c :
-    inv g -> resolve_ref main rs = Some rf ->
+  Lemma man_resolve_hit_m g n rs rf d mt c :
+    minv g -> resolve_ref main rs = Some rf ->
     man_lookup (store_of g) rf = Some (d, (mt, c)) ->
     (p_dighdr p = true \/ valid_digest rf = true) ->
     exists t, man_resolve H parse_mt main user_mts limit S ex0 (g, n) rs
               = ((g, n + 1), t, RDesc (mkDesc mt d (len c))).
   Proof.
-    intros [I _] ER L Hd. destruct (man_lookup_key _ _ _ _ L) as [Lk Hk].
-    destruct (I _ _ _ Lk) as (Ed & _ & Pm & Hlim).
+    intros I ER L Hd. destruct (man_lookup_key _ _ _ _ L) as [Lk Hk].
+    destruct (I _ _ _ Lk) as (Ed & Pm & Hlim).
     unfold man_resolve. rewrite ER, hx_head_man, (man_resp_hit true g rf d mt c L).
     simp. rewrite orb_true_r. cbn [opt_if].
     rewrite gen_desc_honest; eauto.
@@ -327,6 +354,14 @@ Section Refine.
     - destruct (valid_digest rf) eqn:V; auto. left. symmetry. auto.
     - destruct Hd as [->|V]; auto. right. left. split; auto. symmetry. auto.
   Qed.
+
+  Lemma man_resolve_hit g n rs rf d mt c :
+    inv g -> resolve_ref main rs = Some rf ->
+    man_lookup (store_of g) rf = Some (d, (mt, c)) ->
+    (p_dighdr p = true \/ valid_digest rf = true) ->
+    exists t, man_resolve H parse_mt main user_mts limit S ex0 (g, n) rs
+              = ((g, n + 1), t, RDesc (mkDesc mt d (len c))).
+  Proof. intro Hi. apply man_resolve_hit_m. now apply inv_minv. Qed.
 
   Lemma man_resolve_miss g n rs rf :
     resolve_ref main rs = Some rf -> man_lookup (store_of g) rf = None ->
@@ -337,15 +372,15 @@ Section Refine.
   Qed.
 
   (* ---- manifestStore.FetchReference ---- *)
-  Lemma man_fetchref_hit g n rs rf d mt c :
-    inv g -> resolve_ref main rs = Some rf ->
+  Lemma man_fetchref_hit_m g n rs rf d mt c :
+    minv g -> resolve_ref main rs = Some rf ->
     man_lookup (store_of g) rf = Some (d, (mt, c)) ->
     (p_clen p = true \/ p_dighdr p = true \/ valid_digest rf = true) ->
     exists n' t, man_fetchref H parse_mt main user_mts limit S ex0 (g, n) rs
               = ((g, n'), t, RDescBytes (mkDesc mt d (len c)) c).
   Proof.
-    intros Hi ER L Hd. pose proof Hi as [I _]. destruct (man_lookup_key _ _ _ _ L) as [Lk Hk].
-    destruct (I _ _ _ Lk) as (Ed & _ & Pm & Hlim).
+    intros Hi ER L Hd. pose proof Hi as I. destruct (man_lookup_key _ _ _ _ L) as [Lk Hk].
+    destruct (I _ _ _ Lk) as (Ed & Pm & Hlim).
     unfold man_fetchref. rewrite ER, hx_get_man, (man_resp_hit false g rf d mt c L).
     simp. rewrite orb_false_r.
     destruct (p_clen p) eqn:Ec; cbn [opt_if].
@@ -361,9 +396,17 @@ Section Refine.
       + destruct (valid_digest rf) eqn:V; auto. left. symmetry. auto.
       + destruct (p_dighdr p); auto. right. right. auto.
     - destruct Hd as [X|Hd]; [discriminate|].
-      destruct (man_resolve_hit g (n + 1) rs rf d mt c Hi ER L Hd) as [t E]. rewrite E.
+      destruct (man_resolve_hit_m g (n + 1) rs rf d mt c Hi ER L Hd) as [t E]. rewrite E.
       cbn [d_dg]. rewrite vd_opt by (subst d; apply Hvalid). eauto.
   Qed.
+
+  Lemma man_fetchref_hit g n rs rf d mt c :
+    inv g -> resolve_ref main rs = Some rf ->
+    man_lookup (store_of g) rf = Some (d, (mt, c)) ->
+    (p_clen p = true \/ p_dighdr p = true \/ valid_digest rf = true) ->
+    exists n' t, man_fetchref H parse_mt main user_mts limit S ex0 (g, n) rs
+              = ((g, n'), t, RDescBytes (mkDesc mt d (len c)) c).
+  Proof. intro Hi. apply man_fetchref_hit_m. now apply inv_minv. Qed.
 
   Lemma man_fetchref_miss g n rs rf :
     resolve_ref main rs = Some rf -> man_lookup (store_of g) rf = None ->
@@ -1042,21 +1085,28 @@ Section Refine.
   Hypothesis Hidx_subj : forall l, subject_of (gen_index l) = Some None.
   Hypothesis Hidx_mt : parse_mt mt_index = Some mt_index.
 
+  Lemma rfi_on_index_m g n tag od l :
+    minv g -> resolve_ref main tag = Some tag -> valid_digest tag = false ->
+    index_state g tag (Some (od, l)) -> (p_clen p = true \/ p_dighdr p = true) ->
+    exists n' t, referrers_from_index H parse_mt main user_mts limit index_of S ex0 (g, n) tag
+                 = ((g, n'), t, ROk, Some (mkDesc mt_index od (len (gen_index l)), l)).
+  Proof.
+    intros Hi ER Vt [Lt Lm] Hp. destruct (Hi _ _ _ Lm) as (Hd & _ & Hlim).
+    assert (ML : man_lookup (store_of g) tag = Some (od, (mt_index, gen_index l))).
+    { rewrite man_lookup_store. unfold man_digest. rewrite Vt, Lt, Lm. reflexivity. }
+    assert (Hp' : p_clen p = true \/ p_dighdr p = true \/ valid_digest tag = true) by tauto.
+    destruct (man_fetchref_hit_m g n tag tag od mt_index (gen_index l) Hi ER ML Hp') as (n' & t & E).
+    unfold referrers_from_index. rewrite E. cbn [d_sz d_dg].
+    assert (El : (limit <? len (gen_index l)) = false) by (apply N.ltb_ge; exact Hlim).
+    rewrite El, N.eqb_refl, <- Hd, str_eqb_refl, andb_false_r, Hjson. eauto.
+  Qed.
+
   Lemma rfi_on_index g n tag od l :
     inv g -> resolve_ref main tag = Some tag -> valid_digest tag = false ->
     index_state g tag (Some (od, l)) -> (p_clen p = true \/ p_dighdr p = true) ->
     exists n' t, referrers_from_index H parse_mt main user_mts limit index_of S ex0 (g, n) tag
                  = ((g, n'), t, ROk, Some (mkDesc mt_index od (len (gen_index l)), l)).
-  Proof.
-    intros Hi ER Vt [Lt Lm] Hp. pose proof Hi as [I _]. destruct (I _ _ _ Lm) as (Hd & _ & _ & Hlim).
-    assert (ML : man_lookup (store_of g) tag = Some (od, (mt_index, gen_index l))).
-    { rewrite man_lookup_store. unfold man_digest. rewrite Vt, Lt, Lm. reflexivity. }
-    assert (Hp' : p_clen p = true \/ p_dighdr p = true \/ valid_digest tag = true) by tauto.
-    destruct (man_fetchref_hit g n tag tag od mt_index (gen_index l) Hi ER ML Hp') as (n' & t & E).
-    unfold referrers_from_index. rewrite E. cbn [d_sz d_dg].
-    assert (El : (limit <? len (gen_index l)) = false) by (apply N.ltb_ge; exact Hlim).
-    rewrite El, N.eqb_refl, <- Hd, str_eqb_refl, andb_false_r, Hjson. eauto.
-  Qed.
+  Proof. intro Hi. apply rfi_on_index_m. now apply inv_minv. Qed.
 
   Lemma rfi_no_index g n tag :
     resolve_ref main tag = Some tag -> valid_digest tag = false -> index_state g tag None ->
@@ -1072,6 +1122,159 @@ Section Refine.
 
   (* the general step: whatever the change, if applyReferrerChanges yields [upd] the tag schema
      afterwards lists [upd] *)
+  (* what an index update does to the registry: manifests only go away, except for the new index *)
+  Definition ts_step (g g' : reg) (j : str) (old : option (str * list desc)) : Prop :=
+    (forall d mt c, lookup d (g_mans g') = Some (mt, c) ->
+        lookup d (g_mans g) = Some (mt, c) \/ (d = H j /\ mt = mt_index /\ c = j)) /\
+    g_other g' = g_other g /\
+    (forall k, k <> H j -> (forall od l0, old = Some (od, l0) -> k <> od) ->
+               lookup k (g_mans g') = lookup k (g_mans g)).
+
+  Lemma ts_step_minv g g' j old : minv g -> len j <= limit -> ts_step g g' j old -> minv g'.
+  Proof.
+    intros I Hl [A _] d mt c L. destruct (A _ _ _ L) as [L0|(-> & -> & ->)]; [eauto|]. auto.
+  Qed.
+
+  Lemma ts_step_inv g g' l old : inv g -> len (gen_index l) <= limit -> ts_step g g' (gen_index l) old -> inv g'.
+  Proof.
+    intros [I Io] Hl (A & B & _). split.
+    - intros d mt c L. change (t_mans (store_of g')) with (g_mans g') in L.
+      destruct (A _ _ _ L) as [L0|(-> & -> & ->)]; [exact (I _ _ _ L0)|].
+      repeat split; auto. left. apply Hidx_subj.
+    - change (t_other (store_of g')) with (g_other g'). rewrite B. exact Io.
+  Qed.
+
+  (* Predecessors over the tag schema reads what the referrers tag points to *)
+  Lemma tag_schema_read g n subj st :
+    minv g -> valid_digest (d_dg subj) = true ->
+    let tag := ref_tag (d_dg subj) in
+    resolve_ref main tag = Some tag -> valid_digest tag = false ->
+    (p_clen p = true \/ p_dighdr p = true) ->
+    index_state g tag st ->
+    exists n' t, tag_schema_referrers H parse_mt main user_mts limit index_of S ex0 (g, n) subj
+                 = ((g, n'), t, RDescs (clean_refs [] (match st with Some (_, l) => l | None => [] end))).
+  Proof.
+    intros Hi Vs tag ER Vt Hp Hst. unfold tag_schema_referrers. rewrite Vs. cbn [negb]. fold tag.
+    destruct st as [[od l]|].
+    - destruct (rfi_on_index_m g n tag od l Hi ER Vt Hst Hp) as (n3 & t3 & E3). rewrite E3. eauto.
+    - destruct (rfi_no_index g n tag ER Vt Hst) as (t3 & E3). rewrite E3. eauto.
+  Qed.
+
+  Lemma tag_schema_update_m g n rst subj old ch upd :
+    minv g -> rst_ok rst ->
+    valid_digest (d_dg subj) = true ->
+    let tag := ref_tag (d_dg subj) in
+    resolve_ref main tag = Some tag -> valid_digest tag = false ->
+    (p_clen p = true \/ p_dighdr p = true) ->
+    index_state g tag old -> NoDup (map fst (g_tags g)) ->
+    apply_change (match old with Some (_, l) => l | None => [] end) (Some ch) = Some upd ->
+    len (gen_index upd) <= limit ->
+    (skip_gc = true \/ forall od l0, old = Some (od, l0) -> od <> H (gen_index upd)) ->
+    exists g' n' t,
+      update_referrers_index H parse_mt main user_mts limit skip_gc index_of S ex0 (g, n) rst subj ch
+      = ((g', n'), rst, t, ROk) /\
+      ts_step g g' (gen_index upd) old /\
+      index_state g' tag (if is_nil upd && negb skip_gc then None else Some (H (gen_index upd), upd)).
+  Proof.
+    intros Hi Hr Vs tag ER Vt Hp Hst Huniq Hch Hlim Hcol.
+    set (j := gen_index upd).
+    assert (Hi0 : ts_step g g j old) by (repeat split; auto).
+    assert (Vtag : valid_ref tag = true) by (eapply resolve_ref_valid; eauto).
+    assert (Hrfi : exists n1 t1 res1 o1,
+               referrers_from_index H parse_mt main user_mts limit index_of S ex0 (g, n) tag = ((g, n1), t1, res1, o1) /\
+               match old with
+               | Some (od, l0) => res1 = ROk /\ o1 = Some (mkDesc mt_index od (len (gen_index l0)), l0)
+               | None => res1 = RErr ENotFound /\ o1 = None
+               end).
+    { destruct old as [[od l0]|].
+      - destruct (rfi_on_index_m g n tag od l0 Hi ER Vt Hst Hp) as (n1 & t1 & E). eauto 10.
+      - destruct (rfi_no_index g n tag ER Vt Hst) as (t1 & E). eauto 10. }
+    destruct Hrfi as (n1 & t1 & res1 & o1 & E1 & Hold).
+    assert (Sj : sub_ok j) by (left; apply Hidx_subj).
+    destruct (man_put_exec g n1 rst (mkDesc mt_index (H j) (len j)) j true tag Vtag eq_refl eq_refl Sj Hr (Hvalid j))
+      as (g2 & n2 & t2 & E2 & St2).
+    cbn [d_dg d_mt] in E2, St2. unfold put_manifest in E2, St2. rewrite Vt in E2, St2. cbn [fst snd] in E2, St2.
+    assert (Hrst : rst_of ROk rst j = rst).
+    { cbn [rst_of]. unfold rst_after, j. now rewrite Hidx_subj. }
+    rewrite Hrst in E2.
+    assert (Gm2 : g_mans g2 = insert (H j) (mt_index, j) (g_mans g)).
+    { change (g_mans g2) with (t_mans (store_of g2)). rewrite St2. reflexivity. }
+    assert (Hi2 : ts_step g g2 j old).
+    { split; [|split].
+      - intros d' mt' c' L. rewrite Gm2 in L.
+        apply lookup_insert_inv in L as [[-> X]|L]; [right|left; exact L]. injection X as -> ->. auto.
+      - change (g_other g2) with (t_other (store_of g2)). rewrite St2. reflexivity.
+      - intros k K1 _. rewrite Gm2. now apply lookup_insert_neq. }
+    assert (Lm2 : lookup (H j) (g_mans g2) = Some (mt_index, j)).
+    { change (g_mans g2) with (t_mans (store_of g2)). rewrite St2. cbn [t_mans]. apply lookup_insert_eq. }
+    assert (Lt2 : lookup tag (g_tags g2) = Some (H j)).
+    { change (g_tags g2) with (t_tags (store_of g2)). rewrite St2. cbn [t_tags]. apply lookup_insert_eq. }
+    unfold update_referrers_index. rewrite Vs. cbn [negb]. fold tag. rewrite E1.
+    destruct old as [[od l0]|].
+    - destruct Hold as [-> ->]. destruct Hst as [Lt Lm]. rewrite Hch. fold j.
+      destruct (Hi _ _ _ Lm) as (Hod & _).
+      destruct (negb (is_nil upd) || skip_gc) eqn:Epush.
+      + rewrite E2. destruct skip_gc eqn:Eg.
+        * exists g2, n2, (t1 ++ t2). split; [reflexivity|]. split; [exact Hi2|].
+          rewrite andb_false_r. split; assumption.
+        * destruct Hcol as [X|Hcol]; [discriminate|]. specialize (Hcol od l0 eq_refl).
+          assert (Lod : lookup od (g_mans g2) = Some (mt_index, gen_index l0)).
+          { change (g_mans g2) with (t_mans (store_of g2)). rewrite St2. cbn [t_mans].
+            rewrite lookup_insert_neq by exact Hcol. exact Lm. }
+          destruct (delete_man_hit g2 n2 (mkDesc mt_index od (len (gen_index l0))) _ Lod
+                      ltac:(cbn [d_dg]; rewrite Hod; apply Hvalid)) as (g3 & t3 & E3 & St3).
+          cbn [d_dg] in E3, St3. rewrite E3.
+          assert (Hi3 : ts_step g g3 j (Some (od, l0))).
+          { destruct Hi2 as (I2 & Io2 & Ik2). split; [|split].
+            - intros d' mt' c' L. change (g_mans g3) with (t_mans (store_of g3)) in L. rewrite St3 in L. cbn [t_mans] in L.
+              apply lookup_remove_inv in L as [L _]. eauto.
+            - change (g_other g3) with (t_other (store_of g3)). rewrite St3. cbn [t_other]. exact Io2.
+            - intros k K1 K2. change (g_mans g3) with (t_mans (store_of g3)). rewrite St3. cbn [t_mans].
+              rewrite lookup_remove_neq by (eapply K2; eauto). now apply Ik2. }
+          assert (Lm3 : lookup (H j) (g_mans g3) = Some (mt_index, j)).
+          { change (g_mans g3) with (t_mans (store_of g3)). rewrite St3. cbn [t_mans].
+            rewrite lookup_remove_neq by (intro X; apply Hcol; now symmetry). exact Lm2. }
+          assert (Lt3 : lookup tag (g_tags g3) = Some (H j)).
+          { change (g_tags g3) with (t_tags (store_of g3)). rewrite St3. cbn [t_tags].
+            change (g_tags g2) with (t_tags (store_of g2)). rewrite St2. cbn [t_tags]. unfold insert. cbn [filter snd].
+            rewrite (str_eqb_neq (H j) od) by (intro X; apply Hcol; now symmetry). cbn [negb].
+            rewrite lookup_cons. now rewrite str_eqb_refl. }
+          exists g3, (n2 + 1), (t1 ++ t2 ++ t3). split; [reflexivity|]. split; [exact Hi3|].
+          rewrite orb_false_r in Epush. apply negb_true_iff in Epush. rewrite Epush. cbn [andb]. split; assumption.
+      + (* nothing left and the old index is garbage-collected: only the delete *)
+        apply orb_false_iff in Epush as [En Eg]. rewrite Eg. apply negb_false_iff in En.
+        assert (upd = []) as Eu by (destruct upd; [reflexivity|discriminate]).
+        destruct (delete_man_hit g n1 (mkDesc mt_index od (len (gen_index l0))) _ Lm
+                    ltac:(cbn [d_dg]; rewrite Hod; apply Hvalid)) as (g3 & t3 & E3 & St3).
+        cbn [d_dg] in E3, St3. rewrite E3.
+        assert (Hi3 : ts_step g g3 j (Some (od, l0))).
+        { split; [|split].
+          - intros d' mt' c' L. change (g_mans g3) with (t_mans (store_of g3)) in L. rewrite St3 in L. cbn [t_mans] in L.
+            apply lookup_remove_inv in L as [L _]. auto.
+          - change (g_other g3) with (t_other (store_of g3)). rewrite St3. reflexivity.
+          - intros k K1 K2. change (g_mans g3) with (t_mans (store_of g3)). rewrite St3. cbn [t_mans].
+            apply lookup_remove_neq. eapply K2; eauto. }
+        assert (Lt3 : lookup tag (g_tags g3) = None).
+        { change (g_tags g3) with (t_tags (store_of g3)). rewrite St3. cbn [t_tags].
+          clear - Lt Huniq. induction (g_tags g) as [|[k v] m IH]; [reflexivity|].
+          rewrite lookup_cons in Lt. cbn [map fst] in Huniq. inversion Huniq as [|? ? Hk Hm]; subst. cbn [filter snd].
+          destruct (str_eqb k tag) eqn:Ek.
+          - injection Lt as ->. rewrite str_eqb_refl. cbn [negb].
+            apply str_eqb_spec in Ek. subst k. now apply lookup_filter_notin.
+          - destruct (negb (str_eqb v od)); [rewrite lookup_cons, Ek|]; auto. }
+        exists g3, (n1 + 1), (t1 ++ [] ++ t3). split; [reflexivity|]. split; [exact Hi3|].
+        rewrite En. cbn [negb andb]. exact Lt3.
+    - destruct Hold as [-> ->]. rewrite Hch. fold j.
+      destruct (negb (is_nil upd) || skip_gc) eqn:Epush.
+      + rewrite E2. exists g2, n2, (t1 ++ t2). split; [reflexivity|]. split; [exact Hi2|].
+        assert ((is_nil upd && negb skip_gc) = false) as -> by (destruct (is_nil upd), skip_gc; cbn in *; congruence).
+        split; assumption.
+      + apply orb_false_iff in Epush as [En Eg]. apply negb_false_iff in En.
+        assert (upd = []) as Eu by (destruct upd; [reflexivity|discriminate]).
+        exists g, n1, (t1 ++ []). split; [reflexivity|]. split; [exact Hi0|].
+        rewrite En, Eg. cbn [negb andb]. exact Hst.
+  Qed.
+
   Lemma tag_schema_update g n rst subj old ch upd :
     inv g -> rst_ok rst ->
     valid_digest (d_dg subj) = true ->
@@ -1090,95 +1293,12 @@ Section Refine.
                      = ((g', n''), t', RDescs (clean_refs [] upd)).
   Proof.
     intros Hi Hr Vs tag ER Vt Hp Hst Huniq Hch Hlim Hcol.
-    set (j := gen_index upd).
-    assert (Vtag : valid_ref tag = true) by (eapply resolve_ref_valid; eauto).
-    assert (Hrfi : exists n1 t1 res1 o1,
-               referrers_from_index H parse_mt main user_mts limit index_of S ex0 (g, n) tag = ((g, n1), t1, res1, o1) /\
-               match old with
-               | Some (od, l0) => res1 = ROk /\ o1 = Some (mkDesc mt_index od (len (gen_index l0)), l0)
-               | None => res1 = RErr ENotFound /\ o1 = None
-               end).
-    { destruct old as [[od l0]|].
-      - destruct (rfi_on_index g n tag od l0 Hi ER Vt Hst Hp) as (n1 & t1 & E). eauto 10.
-      - destruct (rfi_no_index g n tag ER Vt Hst) as (t1 & E). eauto 10. }
-    destruct Hrfi as (n1 & t1 & res1 & o1 & E1 & Hold).
-    assert (Sj : sub_ok j) by (left; apply Hidx_subj).
-    destruct (man_put_exec g n1 rst (mkDesc mt_index (H j) (len j)) j true tag Vtag eq_refl eq_refl Sj Hr (Hvalid j))
-      as (g2 & n2 & t2 & E2 & St2).
-    cbn [d_dg d_mt] in E2, St2. unfold put_manifest in E2, St2. rewrite Vt in E2, St2. cbn [fst snd] in E2, St2.
-    assert (Hrst : rst_of ROk rst j = rst).
-    { cbn [rst_of]. unfold rst_after, j. now rewrite Hidx_subj. }
-    rewrite Hrst in E2.
-    assert (Hi2 : inv g2).
-    { unfold RemoteSpec.inv. rewrite St2. apply sinv_insert_man; auto. }
-    assert (Lm2 : lookup (H j) (g_mans g2) = Some (mt_index, j)).
-    { change (g_mans g2) with (t_mans (store_of g2)). rewrite St2. cbn [t_mans]. apply lookup_insert_eq. }
-    assert (Lt2 : lookup tag (g_tags g2) = Some (H j)).
-    { change (g_tags g2) with (t_tags (store_of g2)). rewrite St2. cbn [t_tags]. apply lookup_insert_eq. }
-    (* reading the tag schema in a state whose tag points to the new index *)
-    assert (Read : forall g' n', inv g' -> lookup tag (g_tags g') = Some (H j) -> lookup (H j) (g_mans g') = Some (mt_index, j) ->
-              exists n'' t', tag_schema_referrers H parse_mt main user_mts limit index_of S ex0 (g', n') subj
-                             = ((g', n''), t', RDescs (clean_refs [] upd))).
-    { intros g' n' Hi' Lt' Lm'.
-      destruct (rfi_on_index g' n' tag (H j) upd Hi' ER Vt (conj Lt' Lm') Hp) as (n3 & t3 & E3).
-      unfold tag_schema_referrers. rewrite Vs. cbn [negb]. fold tag. rewrite E3. eauto. }
-    (* ... and in a state where the tag is gone *)
-    assert (ReadNone : forall g' n', lookup tag (g_tags g') = None -> upd = [] ->
-              exists n'' t', tag_schema_referrers H parse_mt main user_mts limit index_of S ex0 (g', n') subj
-                             = ((g', n''), t', RDescs (clean_refs [] upd))).
-    { intros g' n' Lt' ->.
-      destruct (rfi_no_index g' n' tag ER Vt Lt') as (t3 & E3).
-      unfold tag_schema_referrers. rewrite Vs. cbn [negb]. fold tag. rewrite E3. eauto. }
-    unfold update_referrers_index. rewrite Vs. cbn [negb]. fold tag. rewrite E1.
-    destruct old as [[od l0]|].
-    - destruct Hold as [-> ->]. destruct Hst as [Lt Lm]. rewrite Hch. fold j.
-      pose proof Hi as [I _]. destruct (I _ _ _ Lm) as (Hod & _).
-      destruct (negb (is_nil upd) || skip_gc) eqn:Epush.
-      + rewrite E2. destruct skip_gc eqn:Eg.
-        * exists g2, n2, (t1 ++ t2). split; [reflexivity|]. split; [exact Hi2|]. now apply Read.
-        * destruct Hcol as [X|Hcol]; [discriminate|]. specialize (Hcol od l0 eq_refl).
-          assert (Lod : lookup od (g_mans g2) = Some (mt_index, gen_index l0)).
-          { change (g_mans g2) with (t_mans (store_of g2)). rewrite St2. cbn [t_mans].
-            rewrite lookup_insert_neq by exact Hcol. exact Lm. }
-          destruct (delete_man_hit g2 n2 (mkDesc mt_index od (len (gen_index l0))) _ Lod
-                      ltac:(cbn [d_dg]; rewrite Hod; apply Hvalid)) as (g3 & t3 & E3 & St3).
-          cbn [d_dg] in E3, St3. rewrite E3.
-          assert (Hi3 : inv g3).
-          { unfold RemoteSpec.inv. rewrite St3. destruct Hi2 as [I2 Io2]. split; cbn [t_mans t_other]; [|exact Io2].
-            intros d' mt' c' L. apply lookup_remove_inv in L as [L _]. eauto. }
-          assert (Lm3 : lookup (H j) (g_mans g3) = Some (mt_index, j)).
-          { change (g_mans g3) with (t_mans (store_of g3)). rewrite St3. cbn [t_mans].
-            rewrite lookup_remove_neq by (intro X; apply Hcol; now symmetry). exact Lm2. }
-          assert (Lt3 : lookup tag (g_tags g3) = Some (H j)).
-          { change (g_tags g3) with (t_tags (store_of g3)). rewrite St3. cbn [t_tags].
-            change (g_tags g2) with (t_tags (store_of g2)). rewrite St2. cbn [t_tags]. unfold insert. cbn [filter snd].
-            rewrite (str_eqb_neq (H j) od) by (intro X; apply Hcol; now symmetry). cbn [negb].
-            rewrite lookup_cons. now rewrite str_eqb_refl. }
-          exists g3, (n2 + 1), (t1 ++ t2 ++ t3). split; [reflexivity|]. split; [exact Hi3|]. now apply Read.
-      + (* nothing left and the old index is garbage-collected: only the delete *)
-        apply orb_false_iff in Epush as [En Eg]. rewrite Eg. apply negb_false_iff in En.
-        assert (upd = []) as Eu by (destruct upd; [reflexivity|discriminate]).
-        destruct (delete_man_hit g n1 (mkDesc mt_index od (len (gen_index l0))) _ Lm
-                    ltac:(cbn [d_dg]; rewrite Hod; apply Hvalid)) as (g3 & t3 & E3 & St3).
-        cbn [d_dg] in E3, St3. rewrite E3.
-        assert (Hi3 : inv g3).
-        { unfold RemoteSpec.inv. rewrite St3. destruct Hi as [I0 Io0]. split; cbn [t_mans t_other]; [|exact Io0].
-          intros d' mt' c' L. apply lookup_remove_inv in L as [L _]. eauto. }
-        assert (Lt3 : lookup tag (g_tags g3) = None).
-        { change (g_tags g3) with (t_tags (store_of g3)). rewrite St3. cbn [t_tags].
-          clear - Lt Huniq. induction (g_tags g) as [|[k v] m IH]; [reflexivity|].
-          rewrite lookup_cons in Lt. cbn [map fst] in Huniq. inversion Huniq as [|? ? Hk Hm]; subst. cbn [filter snd].
-          destruct (str_eqb k tag) eqn:Ek.
-          - injection Lt as ->. rewrite str_eqb_refl. cbn [negb].
-            apply str_eqb_spec in Ek. subst k. now apply lookup_filter_notin.
-          - destruct (negb (str_eqb v od)); [rewrite lookup_cons, Ek|]; auto. }
-        exists g3, (n1 + 1), (t1 ++ [] ++ t3). split; [reflexivity|]. split; [exact Hi3|]. now apply ReadNone.
-    - destruct Hold as [-> ->]. rewrite Hch. fold j.
-      destruct (negb (is_nil upd) || skip_gc) eqn:Epush.
-      + rewrite E2. exists g2, n2, (t1 ++ t2). split; [reflexivity|]. split; [exact Hi2|]. now apply Read.
-      + apply orb_false_iff in Epush as [En Eg]. apply negb_false_iff in En.
-        assert (upd = []) as Eu by (destruct upd; [reflexivity|discriminate]).
-        exists g, n1, (t1 ++ []). split; [reflexivity|]. split; [exact Hi|]. now apply ReadNone.
+    destruct (tag_schema_update_m g n rst subj old ch upd (inv_minv _ Hi) Hr Vs ER Vt Hp Hst Huniq Hch Hlim Hcol)
+      as (g' & n' & t & E & St & Ist).
+    exists g', n', t. split; [exact E|]. split; [eapply ts_step_inv; eauto|].
+    destruct (tag_schema_read g' n' subj _ (ts_step_minv _ _ _ _ (inv_minv _ Hi) Hlim St) Vs ER Vt Hp Ist) as (n'' & t' & R).
+    exists n'', t'. rewrite R. destruct (is_nil upd) eqn:En; [|reflexivity].
+    destruct upd; [|discriminate]. destruct skip_gc; reflexivity.
   Qed.
 
   (* Push of a manifest with subject [subj]: referrer r is added *)
@@ -1230,6 +1350,140 @@ Section Refine.
     apply (tag_schema_update g n rst subj (Some (od, l)) (RRemove r) upd); auto.
     - unfold apply_change. now rewrite Hin.
     - destruct Hcol as [X|X]; [now left|right]. intros od' l' Y. injection Y as <- <-. exact X.
+  Qed.
+
+  (* ---------- operation level: Push of a manifest with a subject to a registry WITHOUT the
+     Referrers API, then Predecessors of the subject ---------- *)
+  Lemma man_put_noapi g n rst d c :
+    p_referrers p = false -> len c = d_sz d -> H c = d_dg d -> valid_digest (d_dg d) = true ->
+    exists g' n' t,
+      man_put main S ex0 (g, n) rst d c true (d_dg d) = ((g', n'), rst, t, ROk) /\
+      store_of g' = with_mans (store_of g) (insert (d_dg d) (d_mt d, c) (g_mans g)).
+  Proof.
+    intros Pr Hs Hh V. unfold man_put.
+    rewrite Hs, N.eqb_refl. cbn [negb]. rewrite andb_false_r.
+    unfold cexch, handle. proj. rewrite str_eqb_refl. proj.
+    rewrite <- Hs, N.eqb_refl. cbn [negb]. rewrite Hh.
+    rewrite V. cbn [negb andb orb]. rewrite str_eqb_refl. cbn [negb]. simp. rewrite Pr. cbn [nstr].
+    rewrite vd_opt by exact V.
+    eexists _, _, _. split; reflexivity.
+  Qed.
+
+  Theorem push_subject_then_predecessors g n rst d c sj old :
+    minv g -> p_referrers p = false -> rst <> RSSupported ->
+    is_manifest user_mts d = true -> indexable (d_mt d) = true ->
+    len c = d_sz d -> H c = d_dg d -> valid_digest (d_dg d) = true ->
+    parse_mt (d_mt d) = Some (d_mt d) -> len c <= limit ->
+    subject_of c = Some (Some sj) -> valid_digest (d_dg sj) = true ->
+    let tag := ref_tag (d_dg sj) in
+    resolve_ref main tag = Some tag -> valid_digest tag = false ->
+    (p_clen p = true \/ p_dighdr p = true) ->
+    index_state g tag old -> NoDup (map fst (g_tags g)) ->
+    (forall od l0, old = Some (od, l0) -> od <> d_dg d) ->
+    let l := match old with Some (_, l) => l | None => [] end in
+    let upd := clean_refs [] l ++ [d] in
+    existsb (desc_eqb d) (clean_refs [] l) = false ->
+    len (gen_index upd) <= limit ->
+    (skip_gc = true \/ forall od l0, old = Some (od, l0) -> od <> H (gen_index upd)) ->
+    exists g' n' t,
+      run_op' (g, n) rst (OPush d c) = ((g', n'), RSUnsupported, t, ROk) /\
+      minv g' /\
+      exists n'' t', run_op' (g', n') RSUnsupported (OPreds sj)
+                     = ((g', n''), RSUnsupported, t', RDescs (clean_refs [] upd)).
+  Proof.
+    intros Hi Pr Hrs Him Hix Hs Hh V Pm Hl Sj Vs tag ER Vt Hp Hst Hu Hod l upd Hnew Hlim Hcol.
+    destruct (man_put_noapi g n rst d c Pr Hs Hh V) as (g1 & n1 & t1 & E1 & St1).
+    assert (Gm : g_mans g1 = insert (d_dg d) (d_mt d, c) (g_mans g)).
+    { change (g_mans g1) with (t_mans (store_of g1)). rewrite St1. reflexivity. }
+    assert (Gt : g_tags g1 = g_tags g).
+    { change (g_tags g1) with (t_tags (store_of g1)). rewrite St1. reflexivity. }
+    assert (Hi1 : minv g1).
+    { intros d' mt' c' L. rewrite Gm in L. apply lookup_insert_inv in L as [[-> X]|L]; [|eauto].
+      injection X as -> ->. auto. }
+    assert (Hst1 : index_state g1 tag old).
+    { destruct old as [[od l0]|]; cbn [index_state] in *; rewrite Gt; [|exact Hst].
+      destruct Hst as [Lt Lm]. split; [exact Lt|]. rewrite Gm, lookup_insert_neq by (eapply Hod; eauto). exact Lm. }
+    assert (Hu1 : NoDup (map fst (g_tags g1))) by (rewrite Gt; exact Hu).
+    assert (Ers : rs_set rst false = RSUnsupported) by (destruct rst; cbn; congruence).
+    assert (Hr1 : rst_ok RSUnsupported) by (right; exact Pr).
+    assert (Hch : apply_change (match old with Some (_, l) => l | None => [] end) (Some (RAdd d)) = Some upd).
+    { fold l. unfold apply_change. now rewrite Hnew. }
+    destruct (tag_schema_update_m g1 n1 RSUnsupported sj old (RAdd d) upd Hi1 Hr1 Vs ER Vt Hp Hst1 Hu1 Hch Hlim Hcol)
+      as (g' & n' & t2 & E2 & St2 & Ist).
+    assert (Hi' : minv g') by (eapply ts_step_minv; eauto).
+    assert (Nn : is_nil upd = false) by (unfold upd; destruct (clean_refs [] l); reflexivity).
+    rewrite Nn in Ist. cbn [andb] in Ist.
+    destruct (tag_schema_read g' n' sj _ Hi' Vs ER Vt Hp Ist) as (n'' & t' & R).
+    exists g', n', (t1 ++ t2). split; [|split].
+    - cbn [run_op]. rewrite Him. unfold man_push. rewrite Hix.
+      assert (Ns : rs_supported rst = false) by (destruct rst; cbn; congruence).
+      rewrite Ns. cbn [negb andb].
+      assert (El : (limit <? d_sz d) = false) by (apply N.ltb_ge; rewrite <- Hs; exact Hl).
+      rewrite El, Hs, N.eqb_refl, Hh, str_eqb_refl. cbn [negb orb]. rewrite E1, Ns, Sj, Ers, E2. reflexivity.
+    - exact Hi'.
+    - exists n'', t'. cbn [run_op]. unfold predecessors. rewrite R. reflexivity.
+  Qed.
+
+  (* ... and Delete of a stored manifest with a subject: the referrer leaves the index first, then
+     the manifest is deleted; Predecessors no longer lists it *)
+  Theorem delete_subject_then_predecessors g n d c sj od l :
+    minv g -> p_referrers p = false ->
+    is_manifest user_mts d = true -> indexable_del (d_mt d) = true ->
+    lookup (d_dg d) (g_mans g) = Some (d_mt d, c) -> len c = d_sz d -> valid_digest (d_dg d) = true ->
+    subject_of c = Some (Some sj) -> valid_digest (d_dg sj) = true ->
+    let tag := ref_tag (d_dg sj) in
+    resolve_ref main tag = Some tag -> valid_digest tag = false ->
+    (p_clen p = true \/ p_dighdr p = true) ->
+    index_state g tag (Some (od, l)) -> NoDup (map fst (g_tags g)) ->
+    od <> d_dg d ->
+    let upd := filter (fun x => negb (desc_eqb d x)) (clean_refs [] l) in
+    existsb (desc_eqb d) (clean_refs [] l) = true ->
+    len (gen_index upd) <= limit ->
+    H (gen_index upd) <> d_dg d ->
+    (skip_gc = true \/ od <> H (gen_index upd)) ->
+    exists g' n' t,
+      run_op' (g, n) RSUnsupported (ODelete d) = ((g', n'), RSUnsupported, t, ROk) /\
+      minv g' /\ lookup (d_dg d) (g_mans g') = None /\
+      exists n'' t', run_op' (g', n') RSUnsupported (OPreds sj)
+                     = ((g', n''), RSUnsupported, t', RDescs (clean_refs [] upd)).
+  Proof.
+    intros Hi Pr Him Hix L Hs V Sj Vs tag ER Vt Hp Hst Hu Hod upd Hin Hlim Hj Hcol.
+    destruct (Hi _ _ _ L) as (Hh & Pm & Hl).
+    destruct (man_fetch_hit_m g n d c Hi L Hs V) as (t1 & E1).
+    assert (Hr1 : rst_ok RSUnsupported) by (right; exact Pr).
+    assert (Hch : apply_change l (Some (RRemove d)) = Some upd).
+    { unfold apply_change. now rewrite Hin. }
+    assert (Hcol' : skip_gc = true \/ forall od' l0, Some (od, l) = Some (od', l0) -> od' <> H (gen_index upd)).
+    { destruct Hcol as [X|X]; [now left|right]. intros od' l' Y. injection Y as <- <-. exact X. }
+    destruct (tag_schema_update_m g (n + 1) RSUnsupported sj (Some (od, l)) (RRemove d) upd Hi Hr1 Vs ER Vt Hp Hst Hu Hch Hlim Hcol')
+      as (g3 & n3 & t3 & E3 & St3 & Ist).
+    assert (Hi3 : minv g3) by exact (ts_step_minv _ _ _ _ Hi Hlim St3).
+    destruct St3 as (_ & _ & K3).
+    assert (L3 : lookup (d_dg d) (g_mans g3) = Some (d_mt d, c)).
+    { rewrite K3; [exact L|auto|]. intros od' l' Y. injection Y as <- <-. auto. }
+    destruct (delete_man_hit g3 n3 d _ L3 V) as (g4 & t4 & E4 & St4).
+    assert (Gm4 : g_mans g4 = remove (d_dg d) (g_mans g3)).
+    { change (g_mans g4) with (t_mans (store_of g4)). rewrite St4. reflexivity. }
+    assert (Gt4 : g_tags g4 = filter (fun t => negb (str_eqb (snd t) (d_dg d))) (g_tags g3)).
+    { change (g_tags g4) with (t_tags (store_of g4)). rewrite St4. reflexivity. }
+    assert (Hi4 : minv g4).
+    { intros d' mt' c' L'. rewrite Gm4 in L'. apply lookup_remove_inv in L' as [L' _]. eauto. }
+    assert (Ist4 : index_state g4 tag (if is_nil upd && negb skip_gc then None else Some (H (gen_index upd), upd))).
+    { destruct (is_nil upd && negb skip_gc); cbn [index_state] in *; rewrite Gt4.
+      - now apply lookup_filter_none.
+      - destruct Ist as [Lt Lm]. split.
+        + apply lookup_filter_some; [exact Lt|]. cbn [snd]. now rewrite (str_eqb_neq _ _ Hj).
+        + rewrite Gm4, lookup_remove_neq by exact Hj. exact Lm. }
+    destruct (tag_schema_read g4 (n3 + 1) sj _ Hi4 Vs ER Vt Hp Ist4) as (n'' & t' & R).
+    exists g4, (n3 + 1), (t1 ++ [] ++ t3 ++ t4). split; [|split; [exact Hi4|split]].
+    - cbn [run_op]. rewrite Him. unfold man_delete. rewrite Hix. cbn [rs_supported negb andb].
+      assert (El : (limit <? d_sz d) = false) by (apply N.ltb_ge; rewrite <- Hs; exact Hl).
+      rewrite El, E1, Hs, N.eqb_refl, <- Hh, str_eqb_refl. cbn [negb orb]. rewrite Sj.
+      cbn [ping_referrers]. rewrite E3, E4. reflexivity.
+    - rewrite Gm4. apply lookup_remove_eq.
+    - exists n'', t'. cbn [run_op]. unfold predecessors. rewrite R. f_equal. f_equal.
+      destruct (is_nil upd) eqn:En; [|reflexivity].
+      destruct upd; [|discriminate]. destruct skip_gc; reflexivity.
   Qed.
 
   (* ---------- the digest-header hypothesis is exactly the failing mechanism ---------- *)
